@@ -8,9 +8,9 @@ import (
 	"bytes"
 	"encoding/binary"
 	"fmt"
-	"strings"
 	"math/big"
 	"math/rand"
+	"strings"
 	"time"
 
 	"github.com/btcsuite/btcd/blockchain"
@@ -158,11 +158,11 @@ type Factory struct {
 	HeaderMode bool             // headers are delivered first in this run: header-visible sanity rules are not drawn
 	Pre        []*btcutil.Block // real blocks between the real genesis and abstract block 0 (catalogue mode: they provide mature coins)
 	BaseHeight int32
-	Opts       NetOpts  // the options the parameters were made from (a node makes its own fresh copy with NodeParams)
+	Opts       NetOpts        // the options the parameters were made from (a node makes its own fresh copy with NodeParams)
 	Stats      map[string]int // what the random construction produced (reported as evidence)
-	MaxSpends  int      // at most this many random spends per block (0: no limit)
-	NoSpecial  bool     // the preamble creates no special coin kinds (small blocks for the pruned workloads)
-	ForceRule  []string // per block: when set, the catalogue entry to use instead of a random draw ("edge:<name>" for a valid block)
+	MaxSpends  int            // at most this many random spends per block (0: no limit)
+	NoSpecial  bool           // the preamble creates no special coin kinds (small blocks for the pruned workloads)
+	ForceRule  []string       // per block: when set, the catalogue entry to use instead of a random draw ("edge:<name>" for a valid block)
 }
 
 // NodeParams returns a fresh parameter set equal to the factory's (deployment
@@ -350,10 +350,10 @@ type blockBuilder struct {
 	post     func(h *wire.BlockHeader) // header edit after the merkle root is set
 	unsolved bool                      // leave the hash above the target
 	isLeaf   bool
-	noCommit bool         // the rule handles (or deliberately omits) the witness commitment itself
-	cbNonce  []byte       // coinbase witness reserved value (default: 32 zero bytes)
-	sizeTo   int          // pad the block to exactly this stripped size (0: no padding)
-	weightTo int          // pad the block to exactly this weight; weightTx's first witness item absorbs the remainder
+	noCommit bool   // the rule handles (or deliberately omits) the witness commitment itself
+	cbNonce  []byte // coinbase witness reserved value (default: 32 zero bytes)
+	sizeTo   int    // pad the block to exactly this stripped size (0: no padding)
+	weightTo int    // pad the block to exactly this weight; weightTx's first witness item absorbs the remainder
 	weightTx *wire.MsgTx
 	decoy    string // "before": a wrong commitment-shaped output precedes the real one (valid: the last one counts); "after": it follows it (invalid)
 }
